@@ -44,6 +44,20 @@ fn main() {
         }
         return;
     }
+    if args[0] == "--time-ops" {
+        // development aid: time each op of a C01-style case given as JSON on the command line
+        let case: props::c01::Case = serde_json::from_str(&args[1]).expect("case json");
+        let mut um = engine::ops::new_user_model(&case.locale, &case.language);
+        for op in &case.ops {
+            let t = std::time::Instant::now();
+            let r = engine::ops::apply(&mut um, op);
+            let a = t.elapsed();
+            let t = std::time::Instant::now();
+            let s = engine::snapshot::snapshot(um.get_model(), Default::default());
+            println!("{:?} -> {:?} in {:?}; snapshot {} keys in {:?}", op.kind(), r, a, s.len(), t.elapsed());
+        }
+        return;
+    }
     if args[0] == "--replay" {
         let path = PathBuf::from(args.get(1).expect("--replay <file>"));
         let (prop, campaign, case, _) = match load_replay(&path) {
